@@ -5,6 +5,7 @@ import os
 
 import vf
 from checks import egsign as es
+from checks import reloadfam
 
 RULE = ("MC: SigningMC - TLC checks 12 design-level invariants of Signing.tla (selected version valid, newest / oldest extremal, tie by "
         "id, unique choice, exactly one of selected / nothing, boundary instants, unloadable secret => nothing sent, own signature "
@@ -14,7 +15,11 @@ RULE = ("MC: SigningMC - TLC checks 12 design-level invariants of Signing.tla (s
         "clock, recording transport that parses the request in wire format) recomputing HMAC-SHA256 for every candidate secret, "
         "inbound through production wiring (app.VerifBoot, auth hmac secret_ref, fake clock); TV: SigningTrace requires signer = "
         "Select(row), timestamp = unix seconds of the clock, signature valid over the received body / path / method, and inbound "
-        "accepted <=> signing version in ValidAt(versions, signed timestamp). distinct_nontrivial = validated executions.")
+        "accepted <=> signing version in ValidAt(versions, signed timestamp). Reloads: for every pair of configurations that differ in one "
+        "signing setting (a version's valid_until / valid_from / value, the selection rule, header name, inline secret, signing removed) "
+        "a delivery is observed at a local sink before and after the reload (production wiring with the real dispatcher); ReloadTrace "
+        "requires the signing version in force afterwards to be the one of the configuration the instance claims to run (old when the "
+        "reload is refused, new when applied). distinct_nontrivial = validated executions.")
 
 INVARIANTS = ["TypeOK", "ExactlyOne", "SelectedIsValid", "NewestHasMaxFrom", "OldestHasMinFrom", "TieById", "SelectUnique",
               "OwnSignatureAccepted", "BoundaryFrom", "BoundaryUntil", "Unloadable", "InboundExact"]
@@ -147,6 +152,7 @@ def run(ctx):
     if sum(r["matched"] for r in res) != total:
         raise vf.Infra("trace validation did not consume every event")
     non_vacuity(ctx, info["counters"])
+    reloadfam.frozen_part(ctx, "sign_")
     picked = set()
     with open(files[0]) as f:
         for line in f:
@@ -179,5 +185,8 @@ def run(ctx):
 
 
 def replay(ctx, path):
+    obj = json.load(open(path))
+    if "frozen_job" in obj:
+        return reloadfam.replay_frozen(ctx, obj)
     vf.build_tool("hkv-sign")
     es.replay(ctx, path, "SigningTrace", reexec, describe)
